@@ -1,8 +1,12 @@
 package updog
 
 import (
+	"bytes"
+	"encoding/binary"
+	"encoding/gob"
 	"os"
 
+	"github.com/RoaringBitmap/roaring"
 	"github.com/akrennmair/updog/internal/openfile"
 	"go.etcd.io/bbolt"
 )
@@ -24,6 +28,73 @@ func verifSmallIndex(path string) {
 	w.AddRow(map[string]string{"a": "x", "b": "p"})
 	w.AddRow(map[string]string{"a": "y"})
 	if err := w.Flush(); err != nil {
+		panic(err)
+	}
+}
+
+// verifReferenceIndex writes the same two rows as verifSmallIndex, but through bbolt directly,
+// in the documented layout (bucket "data": 'S' -> gob of the schema, 'I' -> big-endian row
+// count, 'V'+8-byte key -> bitmap): an index file that no writer of this build produced, as
+// the files written by earlier builds are.
+func verifReferenceIndex(path string) {
+	db, err := bbolt.Open(path, 0644, nil)
+	if err != nil {
+		panic(err)
+	}
+	rows := []map[string]string{{"a": "x", "b": "p"}, {"a": "y"}}
+	sch := &schema{Columns: map[string]*column{}}
+	bitmaps := map[uint64]*roaring.Bitmap{}
+	for id, r := range rows {
+		for _, c := range []string{"a", "b"} {
+			v, ok := r[c]
+			if !ok {
+				continue
+			}
+			k := sch.add(c, v)
+			if bitmaps[k] == nil {
+				bitmaps[k] = roaring.New()
+			}
+			bitmaps[k].Add(uint32(id))
+		}
+	}
+	err = db.Update(func(tx *bbolt.Tx) error {
+		b, err := tx.CreateBucketIfNotExists([]byte("data"))
+		if err != nil {
+			return err
+		}
+		for _, c := range []string{"a", "b"} {
+			for _, v := range []string{"p", "x", "y"} {
+				k, ok := sch.Columns[c].Values[v]
+				if !ok {
+					continue
+				}
+				raw, err := bitmaps[k].ToBytes()
+				if err != nil {
+					return err
+				}
+				var key [9]byte
+				key[0] = 'V'
+				binary.BigEndian.PutUint64(key[1:], k)
+				if err := b.Put(key[:], raw); err != nil {
+					return err
+				}
+			}
+		}
+		var buf bytes.Buffer
+		if err := gob.NewEncoder(&buf).Encode(sch); err != nil {
+			return err
+		}
+		if err := b.Put([]byte{'S'}, buf.Bytes()); err != nil {
+			return err
+		}
+		var n [4]byte
+		binary.BigEndian.PutUint32(n[:], uint32(len(rows)))
+		return b.Put([]byte{'I'}, n[:])
+	})
+	if err != nil {
+		panic(err)
+	}
+	if err := db.Close(); err != nil {
 		panic(err)
 	}
 }
@@ -200,7 +271,11 @@ func HarnessC16Race() {
 // HarnessC16ReadOnly: open (any options), query, read the schema, close — the file is unchanged.
 func HarnessC16ReadOnly() {
 	path := verifTempPath("c16r.updog")
-	verifSmallIndex(path)
+	if verifBool("written-by-another-build") {
+		verifReferenceIndex(path) // the documented layout, produced without this build's writers
+	} else {
+		verifSmallIndex(path)
+	}
 	before := verifFileVersion(path)
 	var opts []IndexOption
 	if verifBool("cache") {
